@@ -372,10 +372,12 @@ def randomMV(
     """
 
     if n > 1:
-        # return many multivectors
+        # return many multivectors, all drawn from the same generator
+        if uniform is None:
+            rng = np.random.default_rng(rng)
         return [randomMV(layout=layout, min=min, max=max, grades=grades,
                          mvClass=mvClass, uniform=uniform, n=1,
-                         normed=normed) for k in range(n)]
+                         normed=normed, rng=rng) for k in range(n)]
 
     if uniform is None:
         rng = np.random.default_rng(rng)
